@@ -88,7 +88,7 @@ FLOORS = {
 }
 
 CAP = 48
-SECONDS = 3.0
+SECONDS = 10.0
 
 _state = {}
 
